@@ -28,7 +28,7 @@ ASSUMPTIONS = [
 ]
 TRUSTED = ["CPython asyncio (real, virtual clock)", "pydantic TaskiqResult construction (real)", "vt.sym explorer", "recording stubs"]
 BOUNDS = {"messages": "1 (all configurations); 2 concurrent (2 outcomes quick / all 6 thorough); 3 concurrent (thorough, reduced)", "timer ticks": "<= 6", "timeout label": "5 s"}
-REQUIRED_COVERS = ["inmemory_backend", "timeout_zero", "raise_system_exit", "return", "raise_exc", "raise_base", "no_result", "cancelled", "timeout", "sync", "async", "backend_failed", "timeout_label_unused"]
+REQUIRED_COVERS = ["inmemory_backend", "history_reuse_task_id", "history_reregister_other_kind", "timeout_zero", "raise_system_exit", "return", "raise_exc", "raise_base", "no_result", "cancelled", "timeout", "sync", "async", "backend_failed", "timeout_label_unused"]
 
 
 def cases(tier: str, hname: str = "harness") -> List[Any]:
@@ -124,28 +124,41 @@ def inmemory(c: sym.Ctx, case: Dict[str, Any]) -> None:
     for every retention limit (including the smallest ones)"""
     from taskiq import InMemoryBroker
 
-    from vt.props._recv import Lab
+    from vt.props._recv import InlineExecutor, Lab
 
     c.cover("inmemory_backend")
     lab = Lab(c)
     out: Dict[str, Any] = {}
     try:
         broker = InMemoryBroker(max_stored_results=case["max_stored"], await_inplace=True)
+        broker.receiver.executor = InlineExecutor()  # sync functions run at submit time instead of on a pool thread
         outcomes = [c.choose(["return", "raise"], f"o{k}") for k in range(3)]
+        # histories inside one worker: a task id that is used again (a re-delivery, a retry that keeps its results), and a task
+        # name that is registered again with the other kind of function (sync <-> async) between two executions
+        hist = c.choose(["plain", "reuse_task_id", "reregister_other_kind"], "history")
+        c.cover("history_" + hist)
+        ids = ["id0", "id0", "id2"] if hist == "reuse_task_id" else ["id0", "id1", "id2"]
+        first_kind = c.choose(["async", "sync"], "first_kind") if hist == "reregister_other_kind" else "async"
+        other = {"async": "sync", "sync": "async"}
+        kinds = [first_kind, other[first_kind], first_kind] if hist == "reregister_other_kind" else ["async"] * 3
 
-        async def target(i: int) -> Any:
+        async def atarget(i: int) -> Any:
             if outcomes[i] == "raise":
                 raise ValueError(f"boom{i}")
             return ("value", i)
 
-        task = broker.register_task(target, task_name="t")
+        def starget(i: int) -> Any:
+            if outcomes[i] == "raise":
+                raise ValueError(f"boom{i}")
+            return ("value", i)
 
         async def main() -> None:
             for i in range(3):
-                await task.kicker().with_task_id(f"id{i}").kiq(i)
-                out[i] = (await broker.result_backend.is_result_ready(f"id{i}"),)
+                task = broker.register_task(atarget if kinds[i] == "async" else starget, task_name="t")
+                await task.kicker().with_task_id(ids[i]).kiq(i)
+                out[i] = (await broker.result_backend.is_result_ready(ids[i]),)
                 if out[i][0]:
-                    out[i] += (await broker.result_backend.get_result(f"id{i}"),)
+                    out[i] += (await broker.result_backend.get_result(ids[i]),)
 
         mt = lab.loop.create_task(main())
         lab.drive(mt)
@@ -162,7 +175,9 @@ def inmemory(c: sym.Ctx, case: Dict[str, Any]) -> None:
         c.check(bool(got[0]), "set_result_count", msg=i, stored=got[0], limit=case["max_stored"], backend="InmemoryResultBackend")
         if got[0]:
             res = got[1]
-            ok = (res.is_err and "boom%d" % i in str(res.error)) if outcomes[i] == "raise" else (not res.is_err and tuple(res.return_value) == ("value", i))
+            rv = res.return_value
+            ok = (res.is_err and "boom%d" % i in str(res.error)) if outcomes[i] == "raise" else (
+                not res.is_err and isinstance(rv, (tuple, list)) and tuple(rv) == ("value", i))
             c.check(ok, "result_of_return" if outcomes[i] == "return" else "result_of_failure", msg=i, res=res)
 
 
